@@ -706,6 +706,14 @@ func (u *Unmarshaler) processFieldWithEnvValue(fieldType reflect.Type, value ref
 		return err
 	}
 
+	if !value.CanSet() {
+		return errValueNotSettable
+	}
+
+	// 指针字段（如 *int）此时仍为 nil：先分配，否则后面 value.Elem() 得到零 Value，
+	// 对其调用 OverflowInt 等会 panic（与 processNamedFieldWithValue 的做法一致）。
+	maybeNewValue(fieldType, value)
+
 	fieldKind := fieldType.Kind()
 	switch fieldKind {
 	case reflect.Bool:
